@@ -236,10 +236,31 @@ def case_cohort(run, i):
         cohort["profile"] = prof
     run.begin_case("cohort", i, cls=f"cohort:{kind}" + (":corrected" if corrected else "") + (":given" if given else ":inferred") + f":anti-{anti_mode}",
                    cohort=cohort, options=opts, male_ref=male_ref)
-    try:
-        R.do_reference(tfiles, afiles or None, fa, male_ref, None, (sex_all if given else None), opts["do_gc"], opts["do_edge"], opts["do_rmask"])
-    except Exception:
-        pass
+    if i % 5 == 2 and kind != "mismatch":
+        # through the sub-command: file lists, -y, -x, -f and the --no-* switches must reach do_reference, and the file written is its result
+        from ..monitors import cli_plumb
+        out = os.path.join(d, "ref.cnn")
+        argv = ["reference"] + tfiles + afiles + ["-o", out] + (["-y"] if male_ref else []) + (["-x", "female" if sex_all else "male"] if given else []) \
+            + (["-f", fa] if fa else []) + ([] if opts["do_gc"] else ["--no-gc"]) + ([] if opts["do_edge"] else ["--no-edge"]) + ([] if opts["do_rmask"] else ["--no-rmask"])
+        r = cli_plumb.check_cli(run, rt, R, "do_reference", argv,
+                                dict(fa_fname=fa, is_haploid_x_reference=male_ref, female_samples=(sex_all if given else None), do_gc=opts["do_gc"], do_edge=opts["do_edge"],
+                                     do_rmask=opts["do_rmask"], do_cluster=False, diploid_parx_genome=None), "reference")
+        if r is not None:
+            got, res, wit = r
+            if sorted(got["target_fnames"]) != sorted(tfiles) or sorted(got["antitarget_fnames"] or []) != sorted(afiles):
+                run.violate("cli.reference[plumbing]", "reference-cli-passes-wrong-files", "the target/antitarget file lists reaching do_reference are not the command line's", wit)
+            elif not isinstance(res, Exception):
+                fcols = [c for c in res.data.columns if c in ("log2", "depth", "gc", "rmask", "spread")]
+                msg = cli_plumb.file_matches_table(cli_plumb.read_tsv(out), res.data, float_cols=fcols, opt_int=()) if os.path.exists(out) else "no output file"
+                if msg:
+                    run.violate("cli.reference[plumbing]", "reference-cli-file-differs-from-result", msg, wit)
+                else:
+                    cli_plumb.held(run, "reference", "cli-reference")
+    else:
+        try:
+            R.do_reference(tfiles, afiles or None, fa, male_ref, None, (sex_all if given else None), opts["do_gc"], opts["do_edge"], opts["do_rmask"])
+        except Exception:
+            pass
     shutil.rmtree(d, ignore_errors=True)
     run.end_case(fp=rt.fingerprint([tb["start"][:40], prof_t[:40].tolist(), is_xx, male_ref, kind, nsamp], 12), nontrivial=nt >= 2,
                  sample={"kind": kind, "samples": nsamp, "is_xx": is_xx, "male_ref": male_ref, "bins": nt, "antitargets": anti_mode} if i % 37 == 0 else None)
@@ -276,7 +297,7 @@ def case_flat(run, i):
 
 
 WORKLOADS = {"cohort": (_n, case_cohort), "flat": (_n_flat, case_flat)}
-_Q = {"reference.do_reference|held": 70, "reference.do_reference[exact]|held": 35, "reference.summarize_info|held": 60,
+_Q = {"cli.reference[plumbing]|held": 10, "reference.do_reference|held": 70, "reference.do_reference[exact]|held": 35, "reference.summarize_info|held": 60,
       "reference.do_reference[semantic]|held": 30, "class:depth-only": 8, "class:refusal:mismatching-bins": 5,
       "reference.do_reference_flat|held": 25, "reference.get_fasta_stats|held": 15, "extra:summarize_info:columns-judged": 5000}
 QUOTAS = {"quick": _Q, "thorough": {k: v * 8 for k, v in _Q.items()}}
